@@ -4,11 +4,13 @@ import (
 	"bytes"
 	"context"
 	"fmt"
+	"io"
 	"os"
 	"path/filepath"
 	"sort"
 	"strings"
 	"sync"
+	"sync/atomic"
 
 	"github.com/anishathalye/porcupine"
 	"github.com/ipfs/go-cid"
@@ -25,20 +27,23 @@ import (
 // ---------------------------------------------------------------- history
 
 type c08In struct {
-	Op   string // put has get size finalize discard putmany close
+	Op   string // put putmany has get size roots keys finalize finalize-ro discard close
 	Keys []string
 }
 
 type c08Out struct {
-	Err   bool
-	Found bool
-	Data  string
-	Size  int
+	Err      bool
+	Found    bool
+	NotFound bool // the error is a not-found error
+	Data     string
+	Size     int
 }
 
 type c08Listing struct {
 	client     int
-	call, ret  int64
+	call       int64    // before AllKeysChan is called
+	got        int64    // after AllKeysChan returned
+	ret        int64    // after the channel was drained / the cancellation was observed
 	keys       []string // names resolved from CIDs
 	err        bool
 	cancelled  bool
@@ -49,9 +54,9 @@ type c08Hist struct {
 	mu       sync.Mutex // real mutex: only matters in the free-running -race complement
 	ops      []porcupine.Operation
 	listings []c08Listing
-	// put returns, for the listing oracle: key -> return timestamp of a successful put
+	// put returns, for the listing oracle: key -> return timestamp of the first successful put
+	// (0 = stored before the threads started)
 	putRet map[string]int64
-	putAny map[string]bool
 }
 
 func (h *c08Hist) record(client int, in c08In, call int64, out c08Out) {
@@ -71,7 +76,47 @@ func (h *c08Hist) record(client int, in c08In, call int64, out c08Out) {
 	}
 }
 
-// c08Model is the sequential specification: a set of keys plus a closed flag.
+// c08Cfg is what the sequential specification and the file oracle need to know about the
+// configuration of the store under test.
+type c08Cfg struct {
+	whole   bool
+	dedup   bool
+	storeID bool
+	v1      bool   // the output is a CARv1
+	maxCid  uint64 // MaxIndexCidSize (0 = default 2048)
+	// strictClosedKeys: AllKeysChan on a closed store must fail. Documented for ReadWrite ("once
+	// finalized, all read and write calls to this blockstore will result in errors"), not for
+	// a ReadOnly that was closed.
+	strictClosedKeys bool
+}
+
+const (
+	c08Normal   = iota // stored like any block
+	c08IDFree          // identity CID, StoreIdentityCIDs off: never stored, always "present"
+	c08TooLarge        // CID longer than MaxIndexCidSize: Put fails, never stored
+)
+
+func (c c08Cfg) class(name string) int {
+	b := kit.B(name)
+	if c08IsIdentity(b.Raw) && !c.storeID {
+		return c08IDFree
+	}
+	max := c.maxCid
+	if max == 0 {
+		max = 2048
+	}
+	if uint64(len(b.Raw)) > max {
+		return c08TooLarge
+	}
+	return c08Normal
+}
+
+func c08IsIdentity(raw []byte) bool {
+	ci, err := refcar.ParseCID(raw)
+	return err == nil && ci.MhCode == refcar.MhIdentity
+}
+
+// c08State is the state of the sequential specification: a set of keys plus the lifecycle.
 type c08State struct {
 	keys   string // sorted, comma separated
 	closed bool
@@ -90,111 +135,218 @@ func c08KeyOf(name string, whole bool) string {
 	return name
 }
 
-func c08PorcupineModel(whole bool) porcupine.Model {
-	has := func(s c08State, k string) bool {
-		for _, e := range strings.Split(s.keys, ",") {
-			if e == k && e != "" {
-				return true
-			}
+func c08StateHas(s c08State, k string) bool {
+	for _, e := range strings.Split(s.keys, ",") {
+		if e == k && e != "" {
+			return true
 		}
-		return false
 	}
-	add := func(s c08State, k string) c08State {
-		if has(s, k) {
-			return s
-		}
-		l := []string{}
-		if s.keys != "" {
-			l = strings.Split(s.keys, ",")
-		}
-		l = append(l, k)
-		sort.Strings(l)
-		s.keys = strings.Join(l, ",")
+	return false
+}
+
+func c08StateAdd(s c08State, k string) c08State {
+	if c08StateHas(s, k) {
 		return s
 	}
-	return porcupine.Model{
-		Init: func() interface{} { return c08State{} },
-		Step: func(state, input, output interface{}) (bool, interface{}) {
-			s := state.(c08State)
-			in := input.(c08In)
-			out := output.(c08Out)
-			switch in.Op {
-			case "put", "putmany":
-				if s.closed || s.ro {
-					return out.Err, s
-				}
-				if out.Err {
-					return false, s
-				}
-				for _, k := range in.Keys {
-					s = add(s, c08KeyOf(k, whole))
-				}
-				return true, s
-			case "has":
-				if s.closed {
-					return out.Err, s
-				}
-				return !out.Err && out.Found == has(s, c08KeyOf(in.Keys[0], whole)), s
-			case "get", "size":
-				if s.closed {
-					return out.Err, s
-				}
-				present := has(s, c08KeyOf(in.Keys[0], whole))
-				if !present {
-					return out.Err && !out.Found, s // not-found error
-				}
-				b := kit.B(in.Keys[0])
-				if in.Op == "get" {
-					return !out.Err && out.Data == string(b.Data), s
-				}
-				return !out.Err && out.Size == len(b.Data), s
-			case "roots":
-				if s.closed {
-					return out.Err, s
-				}
-				return !out.Err && out.Size == 1, s
-			case "finalize-ro":
-				if s.closed || s.ro {
-					return true, s // result of a repeated lifecycle call is not specified
-				}
-				s.ro = true
-				return !out.Err, s
-			case "finalize", "discard", "close":
-				if s.closed {
-					return true, s // duplicate lifecycle calls: result not specified
-				}
-				s.closed = true
-				return in.Op == "discard" || !out.Err, s
+	l := []string{}
+	if s.keys != "" {
+		l = strings.Split(s.keys, ",")
+	}
+	l = append(l, k)
+	sort.Strings(l)
+	s.keys = strings.Join(l, ",")
+	return s
+}
+
+// c08Step is the (nondeterministic) sequential specification. It returns every state the
+// store may be in after the operation, or nothing when the observed result is impossible.
+//
+// Deliberately unspecified (any result accepted): the result of a lifecycle call on a store
+// that is already closed, Roots on a closed store (ReadOnly.Roots has no closed check and
+// only fails when the file happens to be closed), identity-CID queries on a closed store (the
+// identity fast paths run before the closed check), which prefix of a batch a failed PutMany
+// has stored.
+func c08Step(cfg c08Cfg, s c08State, in c08In, out c08Out) []interface{} {
+	one := func(ok bool, n c08State) []interface{} {
+		if !ok {
+			return nil
+		}
+		return []interface{}{n}
+	}
+	switch in.Op {
+	case "put", "putmany":
+		if s.closed || s.ro {
+			return one(out.Err, s)
+		}
+		bad := -1
+		for i, k := range in.Keys {
+			if cfg.class(k) == c08TooLarge {
+				bad = i
+				break
 			}
-			return false, s
+		}
+		if bad < 0 {
+			if out.Err {
+				return nil
+			}
+			for _, k := range in.Keys {
+				if cfg.class(k) == c08Normal {
+					s = c08StateAdd(s, c08KeyOf(k, cfg.whole))
+				}
+			}
+			return one(true, s)
+		}
+		if !out.Err {
+			return nil
+		}
+		// the batch failed at in.Keys[bad]: any prefix of the keys before it may be stored
+		res := []interface{}{s}
+		for _, k := range in.Keys[:bad] {
+			if cfg.class(k) == c08Normal {
+				s = c08StateAdd(s, c08KeyOf(k, cfg.whole))
+				res = append(res, s)
+			}
+		}
+		return res
+	case "has":
+		k := in.Keys[0]
+		if cfg.class(k) == c08IDFree {
+			if !out.Err && out.Found {
+				return one(true, s)
+			}
+			return one(s.closed && out.Err, s)
+		}
+		if s.closed {
+			return one(out.Err, s)
+		}
+		return one(!out.Err && out.Found == c08StateHas(s, c08KeyOf(k, cfg.whole)), s)
+	case "get", "size":
+		k := in.Keys[0]
+		b := kit.B(k)
+		good := !out.Err && out.Data == string(b.Data)
+		if in.Op == "size" {
+			good = !out.Err && out.Size == len(b.Data)
+		}
+		present := c08StateHas(s, c08KeyOf(k, cfg.whole))
+		if cfg.class(k) == c08IDFree || (in.Op == "size" && c08IsIdentity(b.Raw)) {
+			// GetSize answers identity CIDs from the CID alone whatever StoreIdentityCIDs says
+			if good {
+				return one(true, s)
+			}
+			return one(out.Err && (s.closed || (cfg.class(k) != c08IDFree && !present && out.NotFound)), s)
+		}
+		if s.closed {
+			return one(out.Err, s)
+		}
+		if !present {
+			return one(out.Err && out.NotFound, s)
+		}
+		return one(good, s)
+	case "roots":
+		if !out.Err && out.Found {
+			return one(true, s)
+		}
+		return one(s.closed && out.Err, s)
+	case "keys":
+		// the call of AllKeysChan itself (the listed keys are judged by the listing oracle)
+		if s.closed {
+			return one(out.Err || !cfg.strictClosedKeys, s)
+		}
+		return one(!out.Err, s)
+	case "finalize-ro":
+		if s.closed || s.ro {
+			return one(true, s) // result of a repeated lifecycle call is not specified
+		}
+		s.ro = true
+		return one(!out.Err, s)
+	case "finalize", "discard", "close":
+		if s.closed {
+			return one(true, s) // duplicate lifecycle calls: result not specified
+		}
+		if s.ro && in.Op == "finalize" {
+			// Finalize after FinalizeReadOnly: not specified whether it closes or refuses
+			if out.Err {
+				return one(true, s)
+			}
+			s.closed = true
+			return one(true, s)
+		}
+		s.closed = true
+		return one(in.Op == "discard" || !out.Err, s)
+	}
+	return nil
+}
+
+func c08PorcupineModel(cfg c08Cfg, init c08State) porcupine.Model {
+	nm := porcupine.NondeterministicModel{
+		Init: func() []interface{} { return []interface{}{init} },
+		Step: func(state, input, output interface{}) []interface{} {
+			return c08Step(cfg, state.(c08State), input.(c08In), output.(c08Out))
 		},
 		Equal: func(a, b interface{}) bool { return a.(c08State) == b.(c08State) },
 		DescribeOperation: func(input, output interface{}) string {
 			return fmt.Sprintf("%+v -> %+v", input, output)
 		},
 	}
+	return nm.ToModel()
 }
 
 // ---------------------------------------------------------------- scenarios
 
 // c08Env is one fresh instance of a scenario.
 type c08Env struct {
-	names   []string
-	bodies  []func()
-	hist    *c08Hist
-	final   func() (file []byte, err error) // finalize if needed and return the file
+	names  []string
+	bodies []func()
+	hist   *c08Hist
+	// final brings the store into its final state if the scenario did not (Finalize / Close)
+	// and returns the output; (nil, nil) = there is no output to judge.
+	final   func() (file []byte, err error)
 	cleanup func()
-	whole   bool
-	dedup   bool
+	cfg     c08Cfg
+	pre     []string // blocks stored (successfully) before the threads started
+	preRO   bool     // FinalizeReadOnly was called before the threads started
+	// info: the scenario is outside the property statement (e.g. a read-only store); whatever
+	// it shows is reported as an informational outcome, never as a violation.
+	info bool
+	// noFile: the scenario produces no output (read-only view)
+	noFile bool
+	// extra, when set, adds scenario-specific observations after the run
+	extra func(add func(sig, f string, a ...any))
 }
 
 type c08Scenario struct {
 	Name string
 	Desc string
 	New  func(dir string, o drv.Opts) *c08Env
+	// Opts, when set, replaces the default configuration matrix (quick, thorough).
+	Opts func(tier string) []drv.Opts
+	Info bool
+	// NoRace: not run in the free-running complement
+	NoRace bool
 }
 
 var c08Roots = []cid.Cid{kit.B("a").Cid}
+
+func c08CfgOf(o drv.Opts) c08Cfg {
+	return c08Cfg{whole: o.Whole, dedup: !o.AllowDup, storeID: o.StoreID, v1: o.V1, maxCid: o.MaxCid, strictClosedKeys: true}
+}
+
+func c08NewEnv(o drv.Opts) *c08Env {
+	return &c08Env{hist: &c08Hist{}, cfg: c08CfgOf(o)}
+}
+
+// seq runs the operations of one thread with a scheduling point between consecutive ones, so
+// that another thread's call can complete after op i returned and before op i+1 is invoked.
+func seq(ops ...func()) func() {
+	return func() {
+		for i, op := range ops {
+			if i > 0 {
+				vsync.Yield("between ops")
+			}
+			op()
+		}
+	}
+}
 
 // store wrapper used by scenario threads --------------------------------
 
@@ -206,7 +358,27 @@ type c08Store interface {
 	Size(c cid.Cid) (int, error)
 	Keys(ctx context.Context) (<-chan cid.Cid, error)
 	Life(op string) error
-	Roots() (int, error)
+	Roots() ([]cid.Cid, error)
+}
+
+// prePut stores blocks before the threads start (not scheduled, not part of the history).
+func (e *c08Env) prePut(st c08Store, names ...string) {
+	for _, n := range names {
+		if err := st.Put(kit.B(n)); err != nil {
+			panic(fmt.Sprintf("c08: set-up Put(%s): %v", n, err))
+		}
+		e.preStored(n)
+	}
+}
+
+func (e *c08Env) preStored(names ...string) {
+	for _, n := range names {
+		e.pre = append(e.pre, n)
+		if e.hist.putRet == nil {
+			e.hist.putRet = map[string]int64{}
+		}
+		e.hist.putRet[n] = 0
+	}
 }
 
 func (e *c08Env) opPut(st c08Store, client int, name string) {
@@ -227,21 +399,27 @@ func (e *c08Env) opHas(st c08Store, client int, name string) {
 func (e *c08Env) opGet(st c08Store, client int, name string) {
 	call := vsync.Now()
 	d, err := st.Get(kit.B(name).Cid)
-	out := c08Out{Err: err != nil, Found: err == nil, Data: string(d)}
-	if err != nil && !isNotFound(err) {
-		out.Found = false
-	}
+	out := c08Out{Err: err != nil, Found: err == nil, Data: string(d), NotFound: err != nil && isNotFound(err)}
 	e.hist.record(client, c08In{"get", []string{name}}, call, out)
 }
 func (e *c08Env) opSize(st c08Store, client int, name string) {
 	call := vsync.Now()
 	n, err := st.Size(kit.B(name).Cid)
-	e.hist.record(client, c08In{"size", []string{name}}, call, c08Out{Err: err != nil, Found: err == nil, Size: n})
+	e.hist.record(client, c08In{"size", []string{name}}, call, c08Out{Err: err != nil, Found: err == nil, Size: n, NotFound: err != nil && isNotFound(err)})
 }
 func (e *c08Env) opRoots(st c08Store, client int) {
 	call := vsync.Now()
-	n, err := st.Roots()
-	e.hist.record(client, c08In{"roots", nil}, call, c08Out{Err: err != nil, Size: n})
+	r, err := st.Roots()
+	// Found = the root list is exactly the one the store was created with
+	same := err == nil && len(r) == len(c08Roots)
+	if same {
+		for i := range r {
+			if !r[i].Equals(c08Roots[i]) {
+				same = false
+			}
+		}
+	}
+	e.hist.record(client, c08In{"roots", nil}, call, c08Out{Err: err != nil, Found: same, Size: len(r)})
 }
 func (e *c08Env) opLife(st c08Store, client int, op string) {
 	call := vsync.Now()
@@ -250,11 +428,17 @@ func (e *c08Env) opLife(st c08Store, client int, op string) {
 }
 
 // opKeys drains AllKeysChan (take < 0: all) and optionally cancels after `take` keys.
-func (e *c08Env) opKeys(st c08Store, client int, take int) {
+// each, when set, is called with every key received (a consumer that uses the store while
+// it iterates).
+func (e *c08Env) opKeys(st c08Store, client int, take int, each ...func(name string)) {
 	ctx, cancel := context.WithCancel(context.Background())
 	defer cancel()
 	l := c08Listing{client: client, call: vsync.Now()}
 	ch, err := st.Keys(ctx)
+	l.got = vsync.Now()
+	e.hist.mu.Lock()
+	e.hist.ops = append(e.hist.ops, porcupine.Operation{ClientId: client, Input: c08In{"keys", nil}, Call: l.call, Output: c08Out{Err: err != nil}, Return: l.got})
+	e.hist.mu.Unlock()
 	if err != nil {
 		l.err = true
 		l.ret = vsync.Now()
@@ -268,7 +452,11 @@ func (e *c08Env) opKeys(st c08Store, client int, take int) {
 		if !ok {
 			break
 		}
-		l.keys = append(l.keys, c08NameOf(c))
+		n := c08NameOf(c)
+		l.keys = append(l.keys, n)
+		for _, f := range each {
+			f(n)
+		}
 		if take > 0 {
 			take--
 		}
@@ -290,19 +478,43 @@ func (e *c08Env) opKeys(st c08Store, client int, take int) {
 	e.hist.mu.Unlock()
 }
 
-func c08NameOf(c cid.Cid) string {
-	for _, n := range []string{"a", "b", "c", "a'", "a0", "e"} {
+var c08Names = []string{"a", "b", "c", "a'", "a0", "e", "i", "X", "L40", "L41", "L42", "L43", "L44"}
+
+var c08NameMaps struct {
+	once  sync.Once
+	exact map[string]string // CID bytes -> name
+	flat  map[string]string // CIDv1(raw, multihash) bytes -> name (listing without whole CIDs)
+}
+
+func c08NameInit() {
+	c08NameMaps.exact = map[string]string{}
+	c08NameMaps.flat = map[string]string{}
+	for _, n := range c08Names {
 		b := kit.B(n)
-		if b.Cid.Equals(c) {
-			return n
+		c08NameMaps.exact[string(b.Raw)] = n
+		k := string(rawV1Key(b.Raw))
+		if _, ok := c08NameMaps.flat[k]; !ok {
+			c08NameMaps.flat[k] = n
 		}
 	}
-	for _, n := range []string{"a", "b", "c", "e"} {
-		if bytes.Equal(rawV1Key(kit.B(n).Raw), c.Bytes()) {
-			return n
-		}
+}
+
+// c08NameOf resolves a listed key to a block name ("?..." when it is not in the alphabet).
+func c08NameOf(c cid.Cid) string {
+	c08NameMaps.once.Do(c08NameInit)
+	if n, ok := c08NameMaps.exact[string(c.Bytes())]; ok {
+		return n
+	}
+	if n, ok := c08NameMaps.flat[string(c.Bytes())]; ok {
+		return n
 	}
 	return "?" + c.String()
+}
+
+// c08NameOfRaw resolves the CID of a section ("" when it is not in the alphabet).
+func c08NameOfRaw(raw []byte) string {
+	c08NameMaps.once.Do(c08NameInit)
+	return c08NameMaps.exact[string(raw)]
 }
 
 type c08BS struct{ bs *blockstore.ReadWrite }
@@ -318,22 +530,24 @@ func (s c08BS) Get(c cid.Cid) ([]byte, error) {
 	if err != nil {
 		return nil, err
 	}
+	if !b.Cid().Equals(c) {
+		return []byte("block with CID " + b.Cid().String()), nil
+	}
 	return b.RawData(), nil
 }
 func (s c08BS) Size(c cid.Cid) (int, error) { return s.bs.GetSize(drv.Ctx, c) }
 func (s c08BS) Keys(ctx context.Context) (<-chan cid.Cid, error) {
 	return s.bs.AllKeysChan(ctx)
 }
-func (s c08BS) Roots() (int, error) {
-	r, err := s.bs.Roots()
-	return len(r), err
-}
+func (s c08BS) Roots() ([]cid.Cid, error) { return s.bs.Roots() }
 func (s c08BS) Life(op string) error {
 	switch op {
 	case "finalize-ro":
 		return s.bs.FinalizeReadOnly()
 	case "finalize":
 		return s.bs.Finalize()
+	case "close":
+		return s.bs.Close()
 	case "discard":
 		s.bs.Discard()
 		return nil
@@ -341,23 +555,32 @@ func (s c08BS) Life(op string) error {
 	panic(op)
 }
 
-type c08ST struct{ st *storage.StorageCar }
+// c08ST drives a storage.WritableCar; rd is nil for a write-only (streaming) CAR.
+type c08ST struct {
+	w  storage.WritableCar
+	rd *storage.StorageCar
+}
 
-func (s c08ST) Put(b kit.Blk) error { return s.st.Put(drv.Ctx, b.Cid.KeyString(), b.Data) }
+func (s c08ST) Put(b kit.Blk) error { return s.w.Put(drv.Ctx, b.Cid.KeyString(), b.Data) }
 func (s c08ST) PutMany(bs []kit.Blk) error {
 	panic("no PutMany on storage")
 }
-func (s c08ST) Has(c cid.Cid) (bool, error)   { return s.st.Has(drv.Ctx, c.KeyString()) }
-func (s c08ST) Get(c cid.Cid) ([]byte, error) { return s.st.Get(drv.Ctx, c.KeyString()) }
+func (s c08ST) Has(c cid.Cid) (bool, error) { return s.w.Has(drv.Ctx, c.KeyString()) }
+func (s c08ST) Get(c cid.Cid) ([]byte, error) {
+	if s.rd == nil {
+		panic("no Get on a write-only storage")
+	}
+	return s.rd.Get(drv.Ctx, c.KeyString())
+}
 func (s c08ST) Size(c cid.Cid) (int, error) {
-	d, err := s.st.Get(drv.Ctx, c.KeyString())
+	d, err := s.Get(c)
 	return len(d), err
 }
 func (s c08ST) Keys(ctx context.Context) (<-chan cid.Cid, error) { panic("no listing on storage") }
-func (s c08ST) Roots() (int, error)                              { return len(s.st.Roots()), nil }
+func (s c08ST) Roots() ([]cid.Cid, error)                        { return s.w.Roots(), nil }
 func (s c08ST) Life(op string) error {
 	if op == "finalize" {
-		return s.st.Finalize()
+		return s.w.Finalize()
 	}
 	panic(op)
 }
@@ -372,7 +595,7 @@ func (s c08DW) Size(c cid.Cid) (int, error)   { panic("no Size") }
 func (s c08DW) Keys(ctx context.Context) (<-chan cid.Cid, error) {
 	panic("no listing")
 }
-func (s c08DW) Roots() (int, error) { panic("no roots") }
+func (s c08DW) Roots() ([]cid.Cid, error) { panic("no roots") }
 func (s c08DW) Life(op string) error {
 	if op == "close" {
 		return s.dw.Close()
@@ -396,10 +619,7 @@ func (s c08RO) Size(c cid.Cid) (int, error) { return s.bs.GetSize(drv.Ctx, c) }
 func (s c08RO) Keys(ctx context.Context) (<-chan cid.Cid, error) {
 	return s.bs.AllKeysChan(ctx)
 }
-func (s c08RO) Roots() (int, error) {
-	r, err := s.bs.Roots()
-	return len(r), err
-}
+func (s c08RO) Roots() ([]cid.Cid, error) { return s.bs.Roots() }
 func (s c08RO) Life(op string) error {
 	if op == "close" {
 		return s.bs.Close()
@@ -407,32 +627,90 @@ func (s c08RO) Life(op string) error {
 	panic(op)
 }
 
-func c08NewBS(dir string, o drv.Opts) (*c08Env, c08Store) {
-	path := filepath.Join(dir, "c08.car")
-	os.Remove(path)
-	bs, err := blockstore.OpenReadWrite(path, c08Roots, o.List()...)
-	if err != nil {
-		panic(err)
-	}
-	e := &c08Env{hist: &c08Hist{}, whole: o.Whole, dedup: !o.AllowDup}
-	closedByScenario := func() bool {
-		for _, op := range e.hist.ops {
-			in := op.Input.(c08In)
-			if in.Op == "finalize" || in.Op == "discard" {
+// c08Sink is a plain io.Writer (no WriteAt, no Seek): the streaming CARv1 output.
+type c08Sink struct{ buf bytes.Buffer }
+
+func (s *c08Sink) Write(p []byte) (int, error) { return s.buf.Write(p) }
+
+var _ io.Writer = (*c08Sink)(nil)
+
+// closedOK reports whether the history holds a lifecycle call that closed the store.
+func (e *c08Env) closedByScenario() bool {
+	for _, op := range e.hist.ops {
+		in := op.Input.(c08In)
+		switch in.Op {
+		case "discard":
+			return true
+		case "finalize", "close":
+			if !op.Output.(c08Out).Err {
 				return true
 			}
 		}
-		return false
+	}
+	return false
+}
+
+func (e *c08Env) roByScenario() bool {
+	if e.preRO {
+		return true
+	}
+	for _, op := range e.hist.ops {
+		if op.Input.(c08In).Op == "finalize-ro" && !op.Output.(c08Out).Err {
+			return true
+		}
+	}
+	return false
+}
+
+// c08InitialFile is the finalized output of an earlier session holding the given blocks.
+func c08InitialFile(o drv.Opts, names ...string) []byte {
+	var bl []refcar.Block
+	for _, n := range names {
+		bl = append(bl, kit.B(n).Ref())
+	}
+	payload := refcar.EncodeV1([][]byte{kit.B("a").Raw}, false, bl)
+	if o.V1 {
+		return payload
+	}
+	pl, err := refcar.DecodePayload(payload, false, true)
+	if err != nil {
+		panic(err)
+	}
+	return refcar.EncodeV2(payload, 0, 0, refcar.EncodeIndex(refcar.CodecMhIndexSorted, refcar.RecordsOf(pl, o.StoreID)), o.StoreID)
+}
+
+// c08NewBS opens a fresh blockstore.ReadWrite. mode: "" = OpenReadWrite on a new path,
+// "resume" = OpenReadWrite on the finalized file of an earlier session holding a and b,
+// "file" = OpenReadWriteFile over a caller-owned handle.
+func c08NewBSMode(dir string, o drv.Opts, mode string) (*c08Env, c08Store) {
+	path := filepath.Join(dir, "c08.car")
+	os.Remove(path)
+	e := c08NewEnv(o)
+	var bs *blockstore.ReadWrite
+	var own *os.File
+	var err error
+	switch mode {
+	case "resume":
+		if err := os.WriteFile(path, c08InitialFile(o, "a", "b"), 0o644); err != nil {
+			panic(err)
+		}
+		e.preStored("a", "b")
+		bs, err = blockstore.OpenReadWrite(path, c08Roots, o.List()...)
+	case "file":
+		own, err = os.OpenFile(path, os.O_RDWR|os.O_CREATE|os.O_TRUNC, 0o644)
+		if err != nil {
+			panic(err)
+		}
+		bs, err = blockstore.OpenReadWriteFile(own, c08Roots, o.List()...)
+	default:
+		bs, err = blockstore.OpenReadWrite(path, c08Roots, o.List()...)
+	}
+	if err != nil {
+		panic(err)
 	}
 	e.final = func() ([]byte, error) {
-		if !closedByScenario() {
-			ro := false
-			for _, op := range e.hist.ops {
-				if op.Input.(c08In).Op == "finalize-ro" {
-					ro = true
-				}
-			}
-			if ro {
+		if !e.closedByScenario() {
+			if e.roByScenario() {
 				if err := bs.Close(); err != nil {
 					return nil, err
 				}
@@ -440,33 +718,47 @@ func c08NewBS(dir string, o drv.Opts) (*c08Env, c08Store) {
 				return nil, err
 			}
 		}
-		b, err := os.ReadFile(path)
-		return b, err
+		return os.ReadFile(path)
 	}
-	e.cleanup = func() { bs.Discard(); os.Remove(path) }
+	e.cleanup = func() {
+		bs.Discard()
+		if own != nil {
+			own.Close()
+		}
+		os.Remove(path)
+	}
 	return e, c08BS{bs}
 }
 
-func c08NewST(dir string, o drv.Opts) (*c08Env, c08Store) {
+func c08NewBS(dir string, o drv.Opts) (*c08Env, c08Store) { return c08NewBSMode(dir, o, "") }
+
+// c08NewST opens a storage CAR over a file. mode: "" = NewReadableWritable on a new file,
+// "resume" = OpenReadableWritable on the finalized file of an earlier session holding a and b.
+func c08NewSTMode(dir string, o drv.Opts, mode string) (*c08Env, c08Store) {
 	path := filepath.Join(dir, "c08.car")
 	os.Remove(path)
-	f, err := os.OpenFile(path, os.O_RDWR|os.O_CREATE|os.O_TRUNC, 0o644)
-	if err != nil {
-		panic(err)
-	}
-	st, err := storage.NewReadableWritable(f, c08Roots, o.List()...)
-	if err != nil {
-		panic(err)
-	}
-	e := &c08Env{hist: &c08Hist{}, whole: o.Whole, dedup: !o.AllowDup}
-	e.final = func() ([]byte, error) {
-		fin := false
-		for _, op := range e.hist.ops {
-			if op.Input.(c08In).Op == "finalize" {
-				fin = true
-			}
+	e := c08NewEnv(o)
+	if mode == "resume" {
+		if err := os.WriteFile(path, c08InitialFile(o, "a", "b"), 0o644); err != nil {
+			panic(err)
 		}
-		if !fin {
+		e.preStored("a", "b")
+	}
+	f, err := os.OpenFile(path, os.O_RDWR|os.O_CREATE, 0o644)
+	if err != nil {
+		panic(err)
+	}
+	var st *storage.StorageCar
+	if mode == "resume" {
+		st, err = storage.OpenReadableWritable(f, c08Roots, o.List()...)
+	} else {
+		st, err = storage.NewReadableWritable(f, c08Roots, o.List()...)
+	}
+	if err != nil {
+		panic(err)
+	}
+	e.final = func() ([]byte, error) {
+		if !e.closedByScenario() {
 			if err := st.Finalize(); err != nil {
 				return nil, err
 			}
@@ -474,31 +766,186 @@ func c08NewST(dir string, o drv.Opts) (*c08Env, c08Store) {
 		return os.ReadFile(path)
 	}
 	e.cleanup = func() { f.Close(); os.Remove(path) }
-	return e, c08ST{st}
+	return e, c08ST{w: st, rd: st}
+}
+
+func c08NewST(dir string, o drv.Opts) (*c08Env, c08Store) { return c08NewSTMode(dir, o, "") }
+
+// c08NewStream opens a write-only storage CAR over a plain io.Writer (always a CARv1).
+func c08NewStream(o drv.Opts) (*c08Env, c08Store) {
+	o.V1 = true
+	e := c08NewEnv(o)
+	sink := &c08Sink{}
+	w, err := storage.NewWritable(sink, c08Roots, o.List()...)
+	if err != nil {
+		panic(err)
+	}
+	e.final = func() ([]byte, error) {
+		if !e.closedByScenario() {
+			if err := w.Finalize(); err != nil {
+				return nil, err
+			}
+		}
+		return append([]byte{}, sink.buf.Bytes()...), nil
+	}
+	e.cleanup = func() {}
+	return e, c08ST{w: w}
+}
+
+// c08NewDeferred opens a deferred writer: over a path, or (stream) over a plain io.Writer.
+func c08NewDeferred(dir string, o drv.Opts, stream bool) (*c08Env, c08Store) {
+	path := filepath.Join(dir, "c08-def.car")
+	os.Remove(path)
+	var dw *deferred.DeferredCarWriter
+	sink := &c08Sink{}
+	if stream {
+		// the stream constructor forces WriteAsCarV1
+		dw = deferred.NewDeferredCarWriterForStream(sink, c08Roots, o.List()...)
+		o.V1 = true
+	} else {
+		dw = deferred.NewDeferredCarWriterForPath(path, c08Roots, o.List()...)
+	}
+	e := c08NewEnv(o)
+	e.final = func() ([]byte, error) {
+		if !e.closedByScenario() {
+			if err := dw.Close(); err != nil {
+				return nil, err
+			}
+		}
+		if stream {
+			if sink.buf.Len() == 0 {
+				return nil, nil
+			}
+			return append([]byte{}, sink.buf.Bytes()...), nil
+		}
+		b, err := os.ReadFile(path)
+		if os.IsNotExist(err) {
+			return nil, nil
+		}
+		return b, err
+	}
+	e.cleanup = func() { dw.Close(); os.Remove(path) }
+	return e, c08DW{dw}
+}
+
+// c08NewRO opens a ReadOnly blockstore over a finished archive of the given blocks.
+// mmap: through OpenReadOnly on a CARv2 file with an index (Close really releases something).
+func c08NewRO(dir string, o drv.Opts, mmap bool, names ...string) (*c08Env, c08Store) {
+	var bl []refcar.Block
+	for _, n := range names {
+		bl = append(bl, kit.B(n).Ref())
+	}
+	file := refcar.EncodeV1([][]byte{kit.B("a").Raw}, false, bl)
+	var bs *blockstore.ReadOnly
+	var err error
+	path := filepath.Join(dir, "c08-ro.car")
+	if mmap {
+		pl, derr := refcar.DecodePayload(file, false, true)
+		if derr != nil {
+			panic(derr)
+		}
+		v2 := refcar.EncodeV2(file, 0, 0, refcar.EncodeIndex(refcar.CodecMhIndexSorted, refcar.RecordsOf(pl, false)), false)
+		if err := os.WriteFile(path, v2, 0o644); err != nil {
+			panic(err)
+		}
+		bs, err = blockstore.OpenReadOnly(path, o.List()...)
+	} else {
+		bs, err = blockstore.NewReadOnly(bytes.NewReader(file), nil, o.List()...)
+	}
+	if err != nil {
+		panic(err)
+	}
+	e := c08NewEnv(o)
+	e.cfg.dedup = true
+	e.cfg.strictClosedKeys = false
+	e.noFile = true
+	e.preStored(names...)
+	e.final = func() ([]byte, error) { return nil, nil }
+	e.cleanup = func() {
+		if mmap {
+			bs.Close()
+			os.Remove(path)
+		}
+	}
+	return e, c08RO{bs}
+}
+
+// configuration matrices -------------------------------------------------
+
+func c08DefaultOpts(tier string) []drv.Opts {
+	return []drv.Opts{{}, {AllowDup: true}, {Whole: true}, {V1: true}}
+}
+
+// c08PairOpts: scenarios whose puts collide additionally get the option pairs in the thorough tier.
+func c08PairOpts(tier string) []drv.Opts {
+	l := c08DefaultOpts(tier)
+	if tier == "thorough" {
+		l = append(l, drv.Opts{V1: true, AllowDup: true}, drv.Opts{Whole: true, AllowDup: true}, drv.Opts{V1: true, Whole: true})
+	}
+	return l
+}
+
+// c08HeavyOpts: the scenarios with the largest schedule spaces (they hit the execution cap in
+// the thorough tier) run under the three original configurations only.
+func c08HeavyOpts(tier string) []drv.Opts {
+	return []drv.Opts{{}, {AllowDup: true}, {Whole: true}}
+}
+
+// c08TwoOpts: large schedule space, configuration-insensitive paths.
+func c08TwoOpts(tier string) []drv.Opts { return []drv.Opts{{}, {V1: true}} }
+
+// stream outputs are always CARv1
+func c08StreamOpts(tier string) []drv.Opts {
+	return []drv.Opts{{V1: true}, {V1: true, AllowDup: true}, {V1: true, Whole: true}}
+}
+
+func c08IdentityOpts(tier string) []drv.Opts {
+	l := []drv.Opts{{}, {StoreID: true}, {StoreID: true, AllowDup: true}, {StoreID: true, V1: true}}
+	if tier == "thorough" {
+		l = append(l, drv.Opts{V1: true}, drv.Opts{StoreID: true, Whole: true}, drv.Opts{AllowDup: true})
+	}
+	return l
+}
+
+func c08MaxCidOpts(tier string) []drv.Opts {
+	l := []drv.Opts{{MaxCid: 40}, {MaxCid: 40, StoreID: true}, {MaxCid: 40, StoreID: true, AllowDup: true}}
+	if tier == "thorough" {
+		l = append(l, drv.Opts{MaxCid: 40, StoreID: true, V1: true}, drv.Opts{MaxCid: 40, StoreID: true, Whole: true})
+	}
+	return l
+}
+
+func c08ROOpts(tier string) []drv.Opts { return []drv.Opts{{}, {Whole: true}} }
+
+func c08RO1Opts(tier string) []drv.Opts {
+	if tier == "thorough" {
+		return c08ROOpts(tier)
+	}
+	return []drv.Opts{{}}
 }
 
 var c08Scenarios = []c08Scenario{
-	{"S1", "bs: Put a || Put a || Has a; Get a", func(dir string, o drv.Opts) *c08Env {
+	{Name: "S1", Opts: c08PairOpts, Desc: "bs: Put a || Put a || Has a; Get a", New: func(dir string, o drv.Opts) *c08Env {
 		e, st := c08NewBS(dir, o)
 		e.names = []string{"T0", "T1", "T2"}
 		e.bodies = []func(){
 			func() { e.opPut(st, 0, "a") },
 			func() { e.opPut(st, 1, "a") },
-			func() { e.opHas(st, 2, "a"); e.opGet(st, 2, "a") },
+			seq(func() { e.opHas(st, 2, "a") }, func() { e.opGet(st, 2, "a") }),
 		}
 		return e
 	}},
-	{"S2", "bs: Put a; Put b || AllKeysChan(drain) || Has a", func(dir string, o drv.Opts) *c08Env {
+	{Name: "S2", Desc: "bs: Put a; Put b || AllKeysChan(drain) || Has a", New: func(dir string, o drv.Opts) *c08Env {
 		e, st := c08NewBS(dir, o)
 		e.names = []string{"T0", "T1", "T2"}
 		e.bodies = []func(){
-			func() { e.opPut(st, 0, "a"); e.opPut(st, 0, "b") },
+			seq(func() { e.opPut(st, 0, "a") }, func() { e.opPut(st, 0, "b") }),
 			func() { e.opKeys(st, 1, -1) },
 			func() { e.opHas(st, 2, "a") },
 		}
 		return e
 	}},
-	{"S3", "bs: Put a || Finalize || Get a", func(dir string, o drv.Opts) *c08Env {
+	{Name: "S3", Desc: "bs: Put a || Finalize || Get a", New: func(dir string, o drv.Opts) *c08Env {
 		e, st := c08NewBS(dir, o)
 		e.names = []string{"T0", "T1", "T2"}
 		e.bodies = []func(){
@@ -508,52 +955,40 @@ var c08Scenarios = []c08Scenario{
 		}
 		return e
 	}},
-	{"S4", "bs: PutMany[a,b] || Get b; Get a || GetSize b", func(dir string, o drv.Opts) *c08Env {
+	{Name: "S4", Desc: "bs: PutMany[a,b] || Get b; Get a || GetSize b", New: func(dir string, o drv.Opts) *c08Env {
 		e, st := c08NewBS(dir, o)
 		e.names = []string{"T0", "T1", "T2"}
 		e.bodies = []func(){
 			func() { e.opPutMany(st, 0, "a", "b") },
-			func() { e.opGet(st, 1, "b"); e.opGet(st, 1, "a") },
+			seq(func() { e.opGet(st, 1, "b") }, func() { e.opGet(st, 1, "a") }),
 			func() { e.opSize(st, 2, "b") },
 		}
 		return e
 	}},
-	{"S5", "bs: Put a (before) ; AllKeysChan(take 1, cancel) || Put b || Discard", func(dir string, o drv.Opts) *c08Env {
+	{Name: "S5", Desc: "bs: (a, c stored before) AllKeysChan(take 1, cancel) || Put b || Discard", New: func(dir string, o drv.Opts) *c08Env {
 		e, st := c08NewBS(dir, o)
-		if err := st.Put(kit.B("a")); err != nil {
-			panic(err)
-		}
-		if err := st.Put(kit.B("c")); err != nil {
-			panic(err)
-		}
-		e.hist.putRet = map[string]int64{"a": 0, "c": 0}
+		e.prePut(st, "a", "c")
 		e.names = []string{"T0", "T1", "T2"}
 		e.bodies = []func(){
 			func() { e.opKeys(st, 0, 1) },
 			func() { e.opPut(st, 1, "b") },
 			func() { e.opLife(st, 2, "discard") },
 		}
-		pre := e.hist
-		_ = pre
 		return e
 	}},
-	{"S6", "storage: Put a || Put a' || Has a; Get a || Finalize", func(dir string, o drv.Opts) *c08Env {
+	{Name: "S6", Opts: c08PairOpts, Desc: "storage: Put a || Put a' || Has a; Get a || Finalize", New: func(dir string, o drv.Opts) *c08Env {
 		e, st := c08NewST(dir, o)
 		e.names = []string{"T0", "T1", "T2", "T3"}
 		e.bodies = []func(){
 			func() { e.opPut(st, 0, "a") },
 			func() { e.opPut(st, 1, "a'") },
-			func() { e.opHas(st, 2, "a"); e.opGet(st, 2, "a") },
+			seq(func() { e.opHas(st, 2, "a") }, func() { e.opGet(st, 2, "a") }),
 			func() { e.opLife(st, 3, "finalize") },
 		}
 		return e
 	}},
-	{"S7", "deferred: Put a || Put a || Has a || Close", func(dir string, o drv.Opts) *c08Env {
-		path := filepath.Join(dir, "c08-def.car")
-		os.Remove(path)
-		dw := deferred.NewDeferredCarWriterForPath(path, c08Roots, o.List()...)
-		st := c08DW{dw}
-		e := &c08Env{hist: &c08Hist{}, whole: o.Whole, dedup: !o.AllowDup}
+	{Name: "S7", Opts: c08PairOpts, Desc: "deferred (path): Put a || Put a || Has a || Close", New: func(dir string, o drv.Opts) *c08Env {
+		e, st := c08NewDeferred(dir, o, false)
 		e.names = []string{"T0", "T1", "T2", "T3"}
 		e.bodies = []func(){
 			func() { e.opPut(st, 0, "a") },
@@ -561,38 +996,23 @@ var c08Scenarios = []c08Scenario{
 			func() { e.opHas(st, 2, "a") },
 			func() { e.opLife(st, 3, "close") },
 		}
-		e.final = func() ([]byte, error) {
-			b, err := os.ReadFile(path)
-			if os.IsNotExist(err) {
-				return nil, nil
-			}
-			return b, err
-		}
-		e.cleanup = func() { dw.Close(); os.Remove(path) }
 		return e
 	}},
-	{"S8", "ReadOnly over a finished file: AllKeysChan(drain) || Get a; Has b || Close", func(dir string, o drv.Opts) *c08Env {
-		file := refcar.EncodeV1([][]byte{kit.B("a").Raw}, false, []refcar.Block{kit.B("a").Ref(), kit.B("b").Ref(), kit.B("c").Ref()})
-		bs, err := blockstore.NewReadOnly(bytes.NewReader(file), nil, o.List()...)
-		if err != nil {
-			panic(err)
-		}
-		st := c08RO{bs}
-		e := &c08Env{hist: &c08Hist{putRet: map[string]int64{"a": 0, "b": 0, "c": 0}}, whole: o.Whole, dedup: true}
+	{Name: "S8", Desc: "ReadOnly over a finished CARv1 (bytes.Reader): AllKeysChan(drain) || Get a; Has b || Close", Opts: c08ROOpts, New: func(dir string, o drv.Opts) *c08Env {
+		e, st := c08NewRO(dir, o, false, "a", "b", "c")
 		e.names = []string{"T0", "T1", "T2"}
 		e.bodies = []func(){
 			func() { e.opKeys(st, 0, -1) },
+			// no scheduling point between the two calls here (S31 has one): the schedule space of
+			// this scenario stays small enough to be exhausted at pre-emption bound 6
 			func() { e.opGet(st, 1, "a"); e.opHas(st, 1, "b") },
 			func() { e.opLife(st, 2, "close") },
 		}
-		e.final = func() ([]byte, error) { return nil, nil }
-		e.cleanup = func() {}
 		return e
 	}},
-	{"S9", "bs: AllKeysChan(take 1, cancel) || AllKeysChan(drain) || Put b (a stored before)", func(dir string, o drv.Opts) *c08Env {
+	{Name: "S9", Opts: c08HeavyOpts, Desc: "bs: AllKeysChan(take 1, cancel) || AllKeysChan(drain) || Put b (a stored before)", New: func(dir string, o drv.Opts) *c08Env {
 		e, st := c08NewBS(dir, o)
-		st.Put(kit.B("a"))
-		e.hist.putRet = map[string]int64{"a": 0}
+		e.prePut(st, "a")
 		e.names = []string{"T0", "T1", "T2"}
 		e.bodies = []func(){
 			func() { e.opKeys(st, 0, 1) },
@@ -601,20 +1021,19 @@ var c08Scenarios = []c08Scenario{
 		}
 		return e
 	}},
-	{"S10", "bs: Put a; Has a || Put a'; Get a' || GetSize a", func(dir string, o drv.Opts) *c08Env {
+	{Name: "S10", Opts: c08PairOpts, Desc: "bs: Put a; Has a || Put a'; Get a' || GetSize a", New: func(dir string, o drv.Opts) *c08Env {
 		e, st := c08NewBS(dir, o)
 		e.names = []string{"T0", "T1", "T2"}
 		e.bodies = []func(){
-			func() { e.opPut(st, 0, "a"); e.opHas(st, 0, "a") },
-			func() { e.opPut(st, 1, "a'"); e.opGet(st, 1, "a'") },
+			seq(func() { e.opPut(st, 0, "a") }, func() { e.opHas(st, 0, "a") }),
+			seq(func() { e.opPut(st, 1, "a'") }, func() { e.opGet(st, 1, "a'") }),
 			func() { e.opSize(st, 2, "a") },
 		}
 		return e
 	}},
-	{"S11", "bs: Finalize || AllKeysChan(drain) || Put b (a stored before)", func(dir string, o drv.Opts) *c08Env {
+	{Name: "S11", Desc: "bs: Finalize || AllKeysChan(drain) || Put b (a stored before)", New: func(dir string, o drv.Opts) *c08Env {
 		e, st := c08NewBS(dir, o)
-		st.Put(kit.B("a"))
-		e.hist.putRet = map[string]int64{"a": 0}
+		e.prePut(st, "a")
 		e.names = []string{"T0", "T1", "T2"}
 		e.bodies = []func(){
 			func() { e.opLife(st, 0, "finalize") },
@@ -623,46 +1042,266 @@ var c08Scenarios = []c08Scenario{
 		}
 		return e
 	}},
-	{"S12", "storage: Put a || Put b; Has a || Finalize || Get b", func(dir string, o drv.Opts) *c08Env {
+	{Name: "S12", Desc: "storage: Put a || Put b; Has a || Finalize || Get b; Roots", New: func(dir string, o drv.Opts) *c08Env {
 		e, st := c08NewST(dir, o)
 		e.names = []string{"T0", "T1", "T2", "T3"}
 		e.bodies = []func(){
 			func() { e.opPut(st, 0, "a") },
-			func() { e.opPut(st, 1, "b"); e.opHas(st, 1, "a") },
+			seq(func() { e.opPut(st, 1, "b") }, func() { e.opHas(st, 1, "a") }),
 			func() { e.opLife(st, 2, "finalize") },
-			func() { e.opGet(st, 3, "b") },
+			seq(func() { e.opGet(st, 3, "b") }, func() { e.opRoots(st, 3) }),
 		}
 		return e
 	}},
-	{"S13", "bs: PutMany[a,b] || PutMany[b,c] || Has b; Get c", func(dir string, o drv.Opts) *c08Env {
+	{Name: "S13", Opts: c08PairOpts, Desc: "bs: PutMany[a,b] || PutMany[b,c] || Has b; Get c", New: func(dir string, o drv.Opts) *c08Env {
 		e, st := c08NewBS(dir, o)
 		e.names = []string{"T0", "T1", "T2"}
 		e.bodies = []func(){
 			func() { e.opPutMany(st, 0, "a", "b") },
 			func() { e.opPutMany(st, 1, "b", "c") },
-			func() { e.opHas(st, 2, "b"); e.opGet(st, 2, "c") },
+			seq(func() { e.opHas(st, 2, "b") }, func() { e.opGet(st, 2, "c") }),
 		}
 		return e
 	}},
-	{"S14", "bs: FinalizeReadOnly || Put a || Get b; Has a (b stored before)", func(dir string, o drv.Opts) *c08Env {
+	{Name: "S14", Desc: "bs: FinalizeReadOnly || Put a || Get b; Has a (b stored before)", New: func(dir string, o drv.Opts) *c08Env {
 		e, st := c08NewBS(dir, o)
-		st.Put(kit.B("b"))
-		e.hist.putRet = map[string]int64{"b": 0}
+		e.prePut(st, "b")
 		e.names = []string{"T0", "T1", "T2"}
 		e.bodies = []func(){
 			func() { e.opLife(st, 0, "finalize-ro") },
 			func() { e.opPut(st, 1, "a") },
-			func() { e.opGet(st, 2, "b"); e.opHas(st, 2, "a") },
+			seq(func() { e.opGet(st, 2, "b") }, func() { e.opHas(st, 2, "a") }),
 		}
 		return e
 	}},
-	{"S15", "bs: Roots; GetSize a || Put a || Finalize", func(dir string, o drv.Opts) *c08Env {
+	{Name: "S15", Desc: "bs: Roots; GetSize a || Put a || Finalize", New: func(dir string, o drv.Opts) *c08Env {
 		e, st := c08NewBS(dir, o)
 		e.names = []string{"T0", "T1", "T2"}
 		e.bodies = []func(){
-			func() { e.opRoots(st, 0); e.opSize(st, 0, "a") },
+			seq(func() { e.opRoots(st, 0) }, func() { e.opSize(st, 0, "a") }),
 			func() { e.opPut(st, 1, "a") },
 			func() { e.opLife(st, 2, "finalize") },
+		}
+		return e
+	}},
+	// ---- streaming (CARv1 over a plain io.Writer) front ends
+	{Name: "S16", Desc: "storage NewWritable(plain io.Writer, CARv1): Put a || Put a' || Has a; Has b || Finalize", Opts: c08StreamOpts, New: func(dir string, o drv.Opts) *c08Env {
+		e, st := c08NewStream(o)
+		e.names = []string{"T0", "T1", "T2", "T3"}
+		e.bodies = []func(){
+			func() { e.opPut(st, 0, "a") },
+			func() { e.opPut(st, 1, "a'") },
+			seq(func() { e.opHas(st, 2, "a") }, func() { e.opHas(st, 2, "b") }),
+			func() { e.opLife(st, 3, "finalize") },
+		}
+		return e
+	}},
+	{Name: "S17", Desc: "storage NewWritable(plain io.Writer, CARv1): Put a || Put b; Has a || Finalize || Has b; Roots", Opts: c08StreamOpts, New: func(dir string, o drv.Opts) *c08Env {
+		e, st := c08NewStream(o)
+		e.names = []string{"T0", "T1", "T2", "T3"}
+		e.bodies = []func(){
+			func() { e.opPut(st, 0, "a") },
+			seq(func() { e.opPut(st, 1, "b") }, func() { e.opHas(st, 1, "a") }),
+			func() { e.opLife(st, 2, "finalize") },
+			seq(func() { e.opHas(st, 3, "b") }, func() { e.opRoots(st, 3) }),
+		}
+		return e
+	}},
+	{Name: "S18", Desc: "deferred (stream): Put a || Put b || Has a; Has b || Close", Opts: c08StreamOpts, New: func(dir string, o drv.Opts) *c08Env {
+		e, st := c08NewDeferred(dir, o, true)
+		e.names = []string{"T0", "T1", "T2", "T3"}
+		e.bodies = []func(){
+			func() { e.opPut(st, 0, "a") },
+			func() { e.opPut(st, 1, "b") },
+			seq(func() { e.opHas(st, 2, "a") }, func() { e.opHas(st, 2, "b") }),
+			func() { e.opLife(st, 3, "close") },
+		}
+		return e
+	}},
+	// ---- lifecycle call against lifecycle call
+	{Name: "S19", Desc: "bs: Finalize || Finalize || Put a; Has a", New: func(dir string, o drv.Opts) *c08Env {
+		e, st := c08NewBS(dir, o)
+		e.names = []string{"T0", "T1", "T2"}
+		e.bodies = []func(){
+			func() { e.opLife(st, 0, "finalize") },
+			func() { e.opLife(st, 1, "finalize") },
+			seq(func() { e.opPut(st, 2, "a") }, func() { e.opHas(st, 2, "a") }),
+		}
+		return e
+	}},
+	{Name: "S20", Desc: "bs: Finalize || Discard || Get a; GetSize a (a stored before)", New: func(dir string, o drv.Opts) *c08Env {
+		e, st := c08NewBS(dir, o)
+		e.prePut(st, "a")
+		e.names = []string{"T0", "T1", "T2"}
+		e.bodies = []func(){
+			func() { e.opLife(st, 0, "finalize") },
+			func() { e.opLife(st, 1, "discard") },
+			seq(func() { e.opGet(st, 2, "a") }, func() { e.opSize(st, 2, "a") }),
+		}
+		return e
+	}},
+	{Name: "S21", Opts: c08TwoOpts, Desc: "bs: (a, b stored, FinalizeReadOnly done before) Close || Get a; Has b || AllKeysChan(drain)", New: func(dir string, o drv.Opts) *c08Env {
+		e, st := c08NewBS(dir, o)
+		e.prePut(st, "a", "b")
+		if err := st.Life("finalize-ro"); err != nil {
+			panic(err)
+		}
+		e.preRO = true
+		e.names = []string{"T0", "T1", "T2"}
+		e.bodies = []func(){
+			func() { e.opLife(st, 0, "close") },
+			seq(func() { e.opGet(st, 1, "a") }, func() { e.opHas(st, 1, "b") }),
+			func() { e.opKeys(st, 2, -1) },
+		}
+		return e
+	}},
+	{Name: "S22", Desc: "storage: Finalize || Finalize || Put a || Get a", New: func(dir string, o drv.Opts) *c08Env {
+		e, st := c08NewST(dir, o)
+		e.names = []string{"T0", "T1", "T2", "T3"}
+		e.bodies = []func(){
+			func() { e.opLife(st, 0, "finalize") },
+			func() { e.opLife(st, 1, "finalize") },
+			func() { e.opPut(st, 2, "a") },
+			func() { e.opGet(st, 3, "a") },
+		}
+		return e
+	}},
+	{Name: "S23", Desc: "deferred (path): Close || Close || Put a; Has a", New: func(dir string, o drv.Opts) *c08Env {
+		e, st := c08NewDeferred(dir, o, false)
+		e.names = []string{"T0", "T1", "T2"}
+		e.bodies = []func(){
+			func() { e.opLife(st, 0, "close") },
+			func() { e.opLife(st, 1, "close") },
+			seq(func() { e.opPut(st, 2, "a") }, func() { e.opHas(st, 2, "a") }),
+		}
+		return e
+	}},
+	// ---- more than two writers
+	{Name: "S24", Opts: c08PairOpts, Desc: "bs: Put a || Put a || Put a' || Put b; Get a", New: func(dir string, o drv.Opts) *c08Env {
+		e, st := c08NewBS(dir, o)
+		e.names = []string{"T0", "T1", "T2", "T3"}
+		e.bodies = []func(){
+			func() { e.opPut(st, 0, "a") },
+			func() { e.opPut(st, 1, "a") },
+			func() { e.opPut(st, 2, "a'") },
+			seq(func() { e.opPut(st, 3, "b") }, func() { e.opGet(st, 3, "a") }),
+		}
+		return e
+	}},
+	// ---- identity and over-long CIDs
+	{Name: "S25", Desc: "bs: Put i || Has i; Get i; GetSize i || Finalize (i = identity CID; StoreIdentityCIDs on and off)", Opts: c08IdentityOpts, New: func(dir string, o drv.Opts) *c08Env {
+		e, st := c08NewBS(dir, o)
+		e.names = []string{"T0", "T1", "T2"}
+		e.bodies = []func(){
+			func() { e.opPut(st, 0, "i") },
+			seq(func() { e.opHas(st, 1, "i") }, func() { e.opGet(st, 1, "i") }, func() { e.opSize(st, 1, "i") }),
+			func() { e.opLife(st, 2, "finalize") },
+		}
+		return e
+	}},
+	{Name: "S26", Desc: "bs, MaxIndexCidSize=40: PutMany[a,X] || Has a; Get X || PutMany[b,a] (X = 64-byte identity CID)", Opts: c08MaxCidOpts, New: func(dir string, o drv.Opts) *c08Env {
+		e, st := c08NewBS(dir, o)
+		e.names = []string{"T0", "T1", "T2"}
+		e.bodies = []func(){
+			func() { e.opPutMany(st, 0, "a", "X") },
+			seq(func() { e.opHas(st, 1, "a") }, func() { e.opGet(st, 1, "X") }),
+			func() { e.opPutMany(st, 2, "b", "a") },
+		}
+		return e
+	}},
+	{Name: "S27", Desc: "storage: Put i || Get i; Has i || Finalize || Put a (StoreIdentityCIDs on and off)", Opts: c08IdentityOpts, New: func(dir string, o drv.Opts) *c08Env {
+		e, st := c08NewST(dir, o)
+		e.names = []string{"T0", "T1", "T2", "T3"}
+		e.bodies = []func(){
+			func() { e.opPut(st, 0, "i") },
+			seq(func() { e.opGet(st, 1, "i") }, func() { e.opHas(st, 1, "i") }),
+			func() { e.opLife(st, 2, "finalize") },
+			func() { e.opPut(st, 3, "a") },
+		}
+		return e
+	}},
+	// ---- other constructors
+	{Name: "S28", Opts: c08PairOpts, Desc: "bs resumed with OpenReadWrite from a finalized file holding a, b: Put a || Put c || Has b; Get a", New: func(dir string, o drv.Opts) *c08Env {
+		e, st := c08NewBSMode(dir, o, "resume")
+		e.names = []string{"T0", "T1", "T2"}
+		e.bodies = []func(){
+			func() { e.opPut(st, 0, "a") },
+			func() { e.opPut(st, 1, "c") },
+			seq(func() { e.opHas(st, 2, "b") }, func() { e.opGet(st, 2, "a") }),
+		}
+		return e
+	}},
+	{Name: "S29", Desc: "bs over a caller-owned file (OpenReadWriteFile): Put a || Finalize || Roots; Has a", New: func(dir string, o drv.Opts) *c08Env {
+		e, st := c08NewBSMode(dir, o, "file")
+		e.names = []string{"T0", "T1", "T2"}
+		e.bodies = []func(){
+			func() { e.opPut(st, 0, "a") },
+			func() { e.opLife(st, 1, "finalize") },
+			seq(func() { e.opRoots(st, 2) }, func() { e.opHas(st, 2, "a") }),
+		}
+		return e
+	}},
+	{Name: "S30", Opts: c08PairOpts, Desc: "storage resumed with OpenReadableWritable from a finalized file holding a, b: Put a || Put c || Get b; Has c || Finalize", New: func(dir string, o drv.Opts) *c08Env {
+		e, st := c08NewSTMode(dir, o, "resume")
+		e.names = []string{"T0", "T1", "T2", "T3"}
+		e.bodies = []func(){
+			func() { e.opPut(st, 0, "a") },
+			func() { e.opPut(st, 1, "c") },
+			seq(func() { e.opGet(st, 2, "b") }, func() { e.opHas(st, 2, "c") }),
+			func() { e.opLife(st, 3, "finalize") },
+		}
+		return e
+	}},
+	// ---- read-only views (S8 family)
+	{Name: "S31", Desc: "ReadOnly via OpenReadOnly (mmap) over a CARv2 with index: AllKeysChan(drain) || Get a; Has b || Close", Opts: c08RO1Opts, New: func(dir string, o drv.Opts) *c08Env {
+		e, st := c08NewRO(dir, o, true, "a", "b", "c")
+		e.names = []string{"T0", "T1", "T2"}
+		e.bodies = []func(){
+			func() { e.opKeys(st, 0, -1) },
+			seq(func() { e.opGet(st, 1, "a") }, func() { e.opHas(st, 1, "b") }),
+			func() { e.opLife(st, 2, "close") },
+		}
+		return e
+	}},
+	{Name: "S32", Desc: "ReadOnly over 7 blocks (the producer blocks on the full channel buffer): AllKeysChan(take 1, cancel) || Close || Has a", Opts: c08RO1Opts, New: func(dir string, o drv.Opts) *c08Env {
+		e, st := c08NewRO(dir, o, false, "a", "b", "c", "L40", "L41", "L42", "L43")
+		e.names = []string{"T0", "T1", "T2"}
+		e.bodies = []func(){
+			func() { e.opKeys(st, 0, 1) },
+			func() { e.opLife(st, 1, "close") },
+			func() { e.opHas(st, 2, "a") },
+		}
+		return e
+	}},
+	// ---- informational: outside the property statement
+	{Name: "I1", Desc: "INFORMATIONAL, ReadOnly over 8 blocks: for k := range AllKeysChan { Get k } || Close", Info: true, NoRace: true, Opts: func(string) []drv.Opts { return []drv.Opts{{}} }, New: func(dir string, o drv.Opts) *c08Env {
+		e, st := c08NewRO(dir, o, false, "a", "b", "c", "L40", "L41", "L42", "L43", "L44")
+		e.info = true
+		e.names = []string{"T0", "T1"}
+		e.bodies = []func(){
+			func() { e.opKeys(st, 0, -1, func(n string) { e.opGet(st, 0, n) }) },
+			func() { e.opLife(st, 1, "close") },
+		}
+		return e
+	}},
+	{Name: "I2", Desc: "INFORMATIONAL (OnPut is not among the operations of the statement), deferred (path): OnPut(cb, once) || Put a || Put b", Info: true, Opts: func(string) []drv.Opts { return []drv.Opts{{}} }, New: func(dir string, o drv.Opts) *c08Env {
+		e, st := c08NewDeferred(dir, o, false)
+		e.info = true
+		dw := st.(c08DW).dw
+		var regs, fired int32
+		e.names = []string{"T0", "T1", "T2"}
+		e.bodies = []func(){
+			func() {
+				atomic.AddInt32(&regs, 1)
+				dw.OnPut(func(int) { atomic.AddInt32(&fired, 1) }, true)
+			},
+			func() { e.opPut(st, 1, "a") },
+			func() { e.opPut(st, 2, "b") },
+		}
+		e.extra = func(add func(sig, f string, a ...any)) {
+			if r, f := atomic.LoadInt32(&regs), atomic.LoadInt32(&fired); f > r {
+				add("c08:onput-once-fired-again:I2", "%d once-callbacks were registered with OnPut but they fired %d times", r, f)
+			}
 		}
 		return e
 	}},
